@@ -11,6 +11,7 @@
     [bitmap.Slice/Slice] [ws; a; b; c; d] -> Slice(Slice(ws, a, b), c, d); must be the slice [a+c, a+d) of ws
     [bitmap.Slice/Rank64] [ws; a; b; trailing; j] -> Rank64(r, IndexRank64(r, trailing), j) with r = Slice(ws, a, b): [count, bit]
     [bitmap.Slice/NextOne] [ws; a; b; j] -> NextOne(r, j, b-a);  [bitmap.Slice/PrevOne] likewise
+    [bitmap.Join/Slice] [vs; w; k; m] -> Slice(Join(vs, w), k*w, m*w); must be Join of elements k..m-1
     [bitmap.Fmt] [kind; is_slice; vals] -> the string Fmt returns (byte list), P = panic; kind 0..7 = int8, uint8,
                                            int16, uint16, int32, uint32, int64, uint64, 8 = string (not an integer) *)
 From Coq Require Import ZArith List Bool String.
@@ -170,6 +171,19 @@ Definition ops_C14 : list opdef := [
            | Some ws => VZ (spec_SlicePrev ws a b j)
            | None => VBad end
        | _ => VBad end) |};
+  {| op_name := "bitmap.Join/Slice";
+     op_run := fun a => match a with
+       | [vs; VZ w; VZ k; VZ m] => match as_zs vs with
+           | Some vs =>
+               if words_okb vs && width_okb w && (0 <=? k) && (k <=? m) && (m <=? zlen vs)
+               then vopt_zs (JoinSlice vs w k m) else VBad
+           | None => VBad end
+       | _ => VBad end;
+     op_spec := fun a obs => match a with
+       | [vs; VZ w; VZ k; VZ m] => match as_zs vs, as_zs obs with
+           | Some vs, Some r => spec_Join_ok (sublist vs k m) w r
+           | _, _ => false end
+       | _ => false end |};
   {| op_name := "bitmap.Fmt";
      op_run := fun a => match a with
        | [VZ kind; VZ sl; vals] => match as_zs vals with
